@@ -128,6 +128,11 @@ func (g *Gen) setupEntry() *State {
 	for i, c := range g.con.Requires {
 		g.assume(g.mustClause(env, c.E, fmt.Sprintf("requires#%d", i)))
 	}
+	if g.con.ClosedHeap {
+		h := g.heap(st, "ptr")
+		g.assume("(forall ((l Loc)) (! (< (l_obj (select " + h + " l)) A0) :pattern ((select " + h + " l))))")
+		g.stats.Abstractions["assumed:closed-heap-at-entry"]++
+	}
 	// witnesses for counterexample extraction: scalar parameters and declared witness expressions
 	g.wits = nil
 	for _, p := range fn.Params {
@@ -828,11 +833,11 @@ func (g *Gen) scanLoopPass(li *loopInfo, st *State, pass int) {
 					}
 				}
 			case *ssa.MapUpdate:
+				if mt, isM := x.Map.Type().Underlying().(*types.Map); isM {
+					// an insertion can only disturb an iteration over a map of the same Go type
+					li.mapInsTypes = append(li.mapInsTypes, mt)
+				}
 				g.mapKinds(x.Map.Type(), func(k string) {
-					if li.mapIns == nil {
-						li.mapIns = map[string]bool{}
-					}
-					li.mapIns[k] = true
 					kinds[k] = true
 					if hv, ok := g.headEval(li, st, x.Map); ok && pass == 2 {
 						addLoc(k, hv.T)
